@@ -585,6 +585,135 @@ def swap_task(task):
         s.cleanup()
 
 
+# ---- C07 / C19 / C02: many pending paths at once (sizes chosen so that work finishes out of order)
+
+def many_task(task):
+    n, prop = task
+    s = sc.Scratch("many")
+    try:
+        real = Real(s)
+        r = real.r
+        names = []
+        for i in range(n):
+            p = "%s/p%03d.txt" % ("b" if i % 2 else "a", i)
+            size = [300000, 10, 70000, 1, 5000][i % 5]
+            r.write(p, big(size, seed=i))
+            names.append(p)
+        if n >= 3:
+            r.git("add", names[1])            # one staged
+        r.write("a/f.txt", sc.content("1"))   # one modified tracked file
+        os.unlink(r.path("b/keep.txt"))       # one deleted tracked file
+        all_pending = sorted(names + ["a/f.txt", "b/keep.txt"], key=lambda x: x.encode())
+        v = []
+        evals = 0
+        if prop == "C02":
+            r.mr("checkpoint", "update")
+            d = r.mr("analyze", "--changes").json()
+            evals += 1
+            got = None if d is None else [c["path"] for c in d.get("changes") or []]
+            if got != all_pending:
+                v.append(("change-set-wrong", "%d pending paths: reported %s..., expected %s..." % (n, (got or [])[:5], all_pending[:5])))
+        else:
+            real.apply(["CPUP"])
+            v += [x for x in real.update_defects]
+            if prop == "C19":
+                show = r.mr("checkpoint", "show")
+                got = (show.json() or {}).get("checkpoint")
+                evals += 1
+                if show.code != 0 or got != real.last_update:
+                    v.append(("show-differs-from-last-update", "%d pending paths: show differs from what update printed" % n))
+                pend = (real.last_update or {}).get("pending") or {}
+                if sorted(pend, key=lambda x: x.encode()) != all_pending:
+                    v.append(("update-pending-set-wrong", "%d pending paths: update recorded %d paths" % (n, len(pend))))
+            else:
+                d = r.mr("analyze").json()
+                evals += 1
+                if d is None or d.get("targets") != []:
+                    v.append(("targets-after-pending-update", "%d pending paths recorded by update -p: analyze reports %s" % (n, d and d.get("targets"))))
+                for p in [names[0], names[-1], "a/f.txt"]:
+                    saved = open(r.path(p), "rb").read()
+                    r.write(p, saved + b"edited\n")
+                    d = r.mr("analyze").json()
+                    evals += 1
+                    if d is None or d.get("targets") != image([p]):
+                        v.append(("edit-not-reflagged", "%d pending paths, then editing %s: analyze reports %s, expected %s" % (n, p, d and d.get("targets"), image([p]))))
+                    r.write(p, saved)
+        return {"violations": [{"sig": sig, "detail": d, "rank": 60, "case": {"many_case": [n, prop]}} for sig, d in v],
+                "evals": evals, "obs": None, "nontrivial": 1}
+    except common.EngineError as e:
+        return {"engine_error": "%s (many case %s)" % (e, task)}
+    except Exception:
+        return {"engine_error": "many case %s: %s" % (task, traceback.format_exc()[-1200:])}
+    finally:
+        s.cleanup()
+
+
+# ---- C02 / C07: unusual file names must be reported verbatim and keyed verbatim
+
+ODD_NAMES = ["b/trailing space ", "b/ leading space", " lead dir/x.txt", "b/two  spaces.txt", "b/tab\there.txt",
+             "b/quote\"q.txt", "b/back\\slash.txt", "b/caf\u00e9-\U0001F680.txt", "b/-dash", "b/#hash", "b/[glob]*?.txt",
+             "b/.hidden", "b/" + "x" * 200, "b/new\nline.txt", "a/f.txt ", "b/percent%41", "b/semi;colon&amp", "b/trailing.dot."]
+
+
+def name_task(task):
+    """One unusual name, as an untracked file and as a tracked+modified file: `analyze --changes`
+    reports it verbatim; after `update -p` it is clean; a later edit re-flags it."""
+    idx, prop = task
+    name = ODD_NAMES[idx]
+    s = sc.Scratch("names")
+    try:
+        real = Real(s)
+        r = real.r
+        v = []
+        evals = 0
+        r.mr("checkpoint", "update")
+
+        def changes():
+            d = r.mr("analyze", "--changes").json()
+            return None if d is None else [c["path"] for c in d.get("changes") or []]
+
+        def targets():
+            d = r.mr("analyze").json()
+            return None if d is None else d.get("targets")
+        for phase in ("untracked", "tracked-modified"):
+            if phase == "untracked":
+                r.write(name, "one\n")
+            else:
+                r.git("add", "-A")
+                r.git("commit", "-q", "-m", "add odd name")
+                r.mr("checkpoint", "update")
+                r.write(name, "two\n")
+            got = changes()
+            evals += 1
+            if prop == "C02":
+                if got != [name]:
+                    v.append(("path-not-verbatim", "%s file named %r: analyze --changes reports %r" % (phase, name, got)))
+            else:
+                want = image([name])
+                t = targets()
+                if t != want:
+                    v.append(("edit-flags-wrong-targets", "%s file named %r: analyze reports targets %s, expected %s" % (phase, name, t, want)))
+                if r.mr("checkpoint", "update", "-p").code != 0:
+                    v.append(("update-failed", "update -p failed with a pending file named %r" % name))
+                t = targets()
+                evals += 1
+                if t != []:
+                    v.append(("targets-after-pending-update", "file named %r pending at update -p: analyze reports %s" % (name, t)))
+                r.write(name, "three-%s\n" % phase)
+                t = targets()
+                evals += 1
+                if t != want:
+                    v.append(("edit-not-reflagged", "file named %r edited after update -p: analyze reports %s, expected %s" % (name, t, want)))
+        return {"violations": [{"sig": sig, "detail": d, "rank": 70, "case": {"name_case": [idx, prop]}} for sig, d in v],
+                "evals": evals, "obs": None, "nontrivial": 1}
+    except common.EngineError as e:
+        return {"engine_error": "%s (name case %r)" % (e, name)}
+    except Exception:
+        return {"engine_error": "name case %r: %s" % (name, traceback.format_exc()[-1200:])}
+    finally:
+        s.cleanup()
+
+
 def inv_c05(model, real, tier):
     v = []
     r = real.r
@@ -636,9 +765,9 @@ def state_task(task):
 
 
 RULES = {
-    "C02": "plus the size family of C07 judged on the reported change list (a pending file edited beyond a buffer/read boundary must be listed, restored content must be filtered); explicit-state BFS over operation sequences {write(p,c), delete(p), mv, git mv, add -A, commit, checkpoint update [-p] [--id k], checkpoint delete, out delete --all} on paths {a/f.txt, 'b/n e-acute.txt', b/m.txt}; state = (commits, index, worktree, checkpoint) with commit ids canonicalised to indices; each new state is materialised in a real repository (real git, real monorail) and, when a checkpoint exists, `analyze --changes` for the default range and every ordered pair of commits must equal the statement's set (content differs from base, plus untracked, minus pending-checksum matches), verbatim and sorted",
-    "C07": "plus the update-pair family of C19 judged on `analyze` after the second update -p; plus a size family: a pending file (untracked / modified / staged) of each size around the checksum buffer and read boundaries (65535..65537, 200000, 2 MiB+1; thorough more) must be clean after update -p and re-flagged by a one-byte edit at each boundary offset, an append and a truncation; same BFS; in every state reached by `checkpoint update -p`: analyze reports no targets and run starts nothing; then from that state every single later edit (fresh content for each path, new files, deletion of committed files; thorough: every pair) must re-flag exactly the targets of the edited paths, and a second update -p must clear them",
-    "C19": "plus an update-pair family: worktree set to pending configuration S1 (each of a/f.txt, b/m.txt, a/g.txt absent or with one of two contents), `update -p`, worktree set to S2, second update (-p or plain) for every pair (S1,S2) (quick: at most two pending paths each): show must equal what the second update printed; same BFS; in every state `checkpoint show` must equal what the last successful update printed (or fail when deleted / never set); updates must record HEAD or the given --id; without a checkpoint analyze reports checkpointed=false with every target and run covers every target",
+    "C02": "plus an odd-file-name family (18 names: leading/trailing spaces, tab, newline, quote, backslash, non-ASCII, 200 characters, leading dash, glob characters), each untracked and tracked-modified; plus a many-pending-paths family (1..40 paths in quick, up to 600 in thorough, of mixed sizes, untracked / staged / modified / deleted at once); plus the size family of C07 judged on the reported change list (a pending file edited beyond a buffer/read boundary must be listed, restored content must be filtered); explicit-state BFS over operation sequences {write(p,c), delete(p), mv, git mv, add -A, commit, checkpoint update [-p] [--id k], checkpoint delete, out delete --all} on paths {a/f.txt, 'b/n e-acute.txt', b/m.txt}; state = (commits, index, worktree, checkpoint) with commit ids canonicalised to indices; each new state is materialised in a real repository (real git, real monorail) and, when a checkpoint exists, `analyze --changes` for the default range and every ordered pair of commits must equal the statement's set (content differs from base, plus untracked, minus pending-checksum matches), verbatim and sorted",
+    "C07": "plus an odd-file-name family (18 names: leading/trailing spaces, tab, newline, quote, backslash, non-ASCII, 200 characters, leading dash, glob characters), each untracked and tracked-modified; plus a many-pending-paths family (1..40 paths in quick, up to 600 in thorough, of mixed sizes, untracked / staged / modified / deleted at once); plus the update-pair family of C19 judged on `analyze` after the second update -p; plus a size family: a pending file (untracked / modified / staged) of each size around the checksum buffer and read boundaries (65535..65537, 200000, 2 MiB+1; thorough more) must be clean after update -p and re-flagged by a one-byte edit at each boundary offset, an append and a truncation; same BFS; in every state reached by `checkpoint update -p`: analyze reports no targets and run starts nothing; then from that state every single later edit (fresh content for each path, new files, deletion of committed files; thorough: every pair) must re-flag exactly the targets of the edited paths, and a second update -p must clear them",
+    "C19": "plus a many-pending-paths family (1..40 paths in quick, up to 600 in thorough, of mixed sizes, untracked / staged / modified / deleted at once); plus an update-pair family: worktree set to pending configuration S1 (each of a/f.txt, b/m.txt, a/g.txt absent or with one of two contents), `update -p`, worktree set to S2, second update (-p or plain) for every pair (S1,S2) (quick: at most two pending paths each): show must equal what the second update printed; same BFS; in every state `checkpoint show` must equal what the last successful update printed (or fail when deleted / never set); updates must record HEAD or the given --id; without a checkpoint analyze reports checkpointed=false with every target and run covers every target",
     "C05": "same BFS (part B of C05): in every state `analyze --target-groups` then `run -c build` in trace mode must agree on groups and started targets",
 }
 
@@ -714,6 +843,25 @@ def bfs(prop, tier, depth, wall_cap=None):
             agg["distinct_nontrivial"] += r["nontrivial"]
             agg["violations"].extend(r["violations"])
         agg["update_pair_cases"] = len(tasks)
+    if prop in ("C07", "C19", "C02"):
+        counts = [1, 15, 16, 17, 40] if tier == "quick" else [1, 2, 7, 15, 16, 17, 31, 32, 33, 40, 64, 65, 200, 600]
+        tasks = [(n, prop) for n in counts]
+        for r in common.pmap(many_task, tasks):
+            if "engine_error" in r:
+                raise common.EngineError(r["engine_error"])
+            agg["evaluations"] += r["evals"]
+            agg["distinct_nontrivial"] += r["nontrivial"]
+            agg["violations"].extend(r["violations"])
+        agg["many_pending_cases"] = len(tasks)
+    if prop in ("C02", "C07"):
+        tasks = [(i, prop) for i in range(len(ODD_NAMES))]
+        for r in common.pmap(name_task, tasks):
+            if "engine_error" in r:
+                raise common.EngineError(r["engine_error"])
+            agg["evaluations"] += r["evals"]
+            agg["distinct_nontrivial"] += r["nontrivial"]
+            agg["violations"].extend(r["violations"])
+        agg["odd_name_cases"] = len(tasks)
     agg["depth_completed"] = completed_depth
     agg["distinct_observations"] = len(observations)
     agg["alphabet"] = {k: v for k, v in alphabet.items()}
@@ -740,6 +888,18 @@ def run(prop, tier):
 
 def replay(prop, path):
     body = json.load(open(path))
+    if "many_case" in body["case"] or "name_case" in body["case"]:
+        r1 = many_task(tuple(body["case"]["many_case"])) if "many_case" in body["case"] else name_task(tuple(body["case"]["name_case"]))
+        if "engine_error" in r1:
+            print("ENGINE:", r1["engine_error"])
+            return 2
+        if r1["violations"]:
+            for v in r1["violations"]:
+                print("REPLAY property=%s still violates: [%s] %s" % (prop, v["sig"], v["detail"][:400]))
+            print("VIOLATION property=%s replay=%s" % (prop, path))
+            return 1
+        print("REPLAY property=%s: case passes on the current tree" % prop)
+        return 0
     if "swap_case" in body["case"]:
         a, b, sec, pr = body["case"]["swap_case"]
         r1 = swap_task((tuple(a), tuple(b), sec, pr))
